@@ -124,6 +124,7 @@ Theorem C04_construction_order_independent : forall (St : Type) (d1 d2 : design 
   propagateAll (with_combs d1 (reorder (combs d1) l1)) vs = propagateAll (with_combs d2 (reorder (combs d2) l2)) vs.
 Proof. exact construction_order_independent_thm. Qed.
 
+(* <C04-passlimit> *)
 (* ---------------------------------------------------------------- refuted clause (genuine defect, DESIGN.md section 7 #14) *)
 
 (* "acyclic netlists are sorted" is FALSE under any pass limit: for EVERY K, the chain of K+1 buffers instantiated
@@ -139,11 +140,31 @@ Theorem C04_limit_1000_refuted :   let n := S py4hw_loop_limit in
   ranking (chain_succ n) (rev_chain n) (fun x => x) /\ sort_fuel (chain_succ n) py4hw_loop_limit (rev_chain n) = LimitError.
 Proof. exact limit_1000_refuted_thm. Qed.
 
+(* </C04-passlimit> *)
 (* the number of passes the sorter needs on n leaves instantiated sink-first is exactly n (so no constant limit works;
    the conjectured bound "n passes always suffice" is tight if true) *)
 Theorem C04_pass_count_chain : forall n K, 1 <= n ->
   sort_fuel (chain_succ n) K (rev_chain n) = if K <? n then LimitError else Sorted (seq 0 n).
 Proof. exact pass_count_chain_thm. Qed.
+
+(* ---------------------------------------------------------------- the limit as a function of the netlist size
+   (the check evaluates the code's limit expression per netlist; these hold for whatever it is) *)
+
+(* allowing more passes never changes an answer already given (a sorted list or the loop error) ... *)
+Theorem C04_more_passes_never_hurt : forall succ K K' l r,
+  K <= K' -> sort_fuel succ K l = r -> r <> LimitError -> sort_fuel succ K' l = r.
+Proof. exact more_passes_never_hurt_thm. Qed.
+
+(* ... so the limit max(1000, n+1) of fixes/C04-passlimit.diff accepts, with the same list, everything the constant
+   1000 accepts (and still refuses every cyclic netlist: C04_cyclic_rejected holds for every limit) ... *)
+Theorem C04_scaled_limit_no_worse : forall succ n l l',
+  sort_fuel succ py4hw_loop_limit l = Sorted l' -> sort_fuel succ (scaled_limit n) l = Sorted l'.
+Proof. exact scaled_limit_no_worse_thm. Qed.
+
+(* ... and it accepts the sink-first chain of every length, the family that defeats every constant limit *)
+Theorem C04_scaled_limit_accepts_chain : forall n, 1 <= n ->
+  sort_fuel (chain_succ n) (scaled_limit n) (rev_chain n) = Sorted (seq 0 n).
+Proof. exact scaled_limit_accepts_chain_thm. Qed.
 
 (* ---------------------------------------------------------------- non-vacuity *)
 Example C04_sort_nonvacuous : sort_fuel ex_succ py4hw_loop_limit [0; 1; 2] = Sorted [1; 2; 0].
@@ -190,6 +211,11 @@ Print Assumptions C04_fixpoint_unique.
 Print Assumptions C04_order_independent.
 Print Assumptions C04_sorted_netlist_settles.
 Print Assumptions C04_construction_order_independent.
+(* <C04-passlimit-pa> *)
 Print Assumptions C04_limit_refuted.
 Print Assumptions C04_limit_1000_refuted.
+(* </C04-passlimit-pa> *)
 Print Assumptions C04_pass_count_chain.
+Print Assumptions C04_more_passes_never_hurt.
+Print Assumptions C04_scaled_limit_no_worse.
+Print Assumptions C04_scaled_limit_accepts_chain.
